@@ -88,6 +88,8 @@ def eq(x, y):
     elif isinstance(x, partial):
         return type(x) == type(y) and x.func == y.func and eq(x.keywords, y.keywords) and eq(x.args, y.args)
     else:
+        if isinstance(y, (list, tuple, dict, np.ndarray, pd.DataFrame, pd.Series)) and (isinstance(x, str) or not hasattr(x, '__len__')):
+            return False # a scalar never equals a container, whichever side it is on
         try:
             res = x == y
             return np.all(res.__array__()) if hasattr(res, '__array__') else res
